@@ -51,7 +51,7 @@ def run_impl(asm, target, compress):
         asm.assemble(target, compress=compress)
         return dict(status='ok', exc=None, file=None, line=None)
     except asm.AssemblerError as e:
-        return dict(status='asmerr', exc='AssemblerError', file=e.line.file, line=e.line.number)
+        return dict(status='asmerr', exc='AssemblerError', file=getattr(e.line, 'file', None), line=getattr(e.line, 'number', None))
     except RecursionError:
         return dict(status='exc', exc='RecursionError', file=None, line=None)
     except Exception as e:
@@ -62,7 +62,7 @@ def canon(r):
     if r['status'] == 'ok':
         return 'ok'
     if r['status'] == 'asmerr':
-        return 'err asm %s %d' % (common.hexs(r['file']), r['line'])
+        return 'err asm %s %d' % (common.hexs(str(r['file'])), r['line'] or 0)
     return 'internal ' + str(r['exc'])
 
 
@@ -81,6 +81,8 @@ def judge(r, want_file, want_line, alt=None, cls=None):
         return None                     # not refused: C15 says nothing (acceptance is C06's business)
     if r['status'] != 'asmerr':
         return 'internal', INTERNAL_NOTE.format(r['exc'])
+    if r['file'] is None or r['line'] is None:
+        return 'no-line', 'the AssemblerError carries no source line at all (line = None): it names neither file nor line; the faulty line is {} line {}'.format(want_file, want_line)
     got = (os.path.abspath(r['file']) if r['file'] != '<string>' else '<string>', r['line'])
     if got == (want_file, want_line):
         return None
